@@ -630,12 +630,28 @@ def cmdC17 (st : State) : Except String (State × List String) := do
     return (st', [s!"ok realGlyphs={n} pseudos={A.pseudos.length} lb={A.lb} phantom={A.phantom} missing={missing.length} classes={classes.size}", "done"])
   return (st', out ++ ["done"])
 
+/-- Renumber the slot references of an expression for the alternative that keeps `kept` (none: refers to an omitted item). -/
+partial def renExpr (kept : List Nat) : Expr → Option Expr
+  | .userAttr (some s) k => do let n ← Opt.newIndex kept (s - 1); pure (.userAttr (some n) k)
+  | .glyphAttr (some s) a => do let n ← Opt.newIndex kept (s - 1); pure (.glyphAttr (some n) a)
+  | .slotNamed (some s) nm => do let n ← Opt.newIndex kept (s - 1); pure (.slotNamed (some n) nm)
+  | .metric (some s) nm => do let n ← Opt.newIndex kept (s - 1); pure (.metric (some n) nm)
+  | .un op e => do let e' ← renExpr kept e; pure (.un op e')
+  | .bin op a b => do let a' ← renExpr kept a; let b' ← renExpr kept b; pure (.bin op a' b')
+  | .cond c a b => do let c' ← renExpr kept c; let a' ← renExpr kept a; let b' ← renExpr kept b; pure (.cond c' a' b')
+  | e => some e
+
 /-- One alternative of a rule: keep the items in `kept`, renumber references. None if a reference points at an
     omitted item (the compiler diagnoses that). -/
 def alternativeOf (r : RuleIR) (kept : List Nat) : Option RuleIR := do
   let mut items : List ItemIR := []
   for j in kept do
-    let it := r.items.getD j default
+    let it0 := r.items.getD j default
+    let attrs ← it0.attrs.mapM fun a => do let v ← renExpr kept a.val; pure { a with val := v }
+    let constraint ← match it0.constraint with
+      | some c => do let c' ← renExpr kept c; pure (some c')
+      | none => pure none
+    let it := { it0 with attrs := attrs, constraint := constraint }
     let out ← match it.out with
       | some (.cls c (some sel)) => do let n ← Opt.newIndex kept (sel - 1); pure (some (OutSpec.cls c (some n)))
       | some (.copy k) => do let n ← Opt.newIndex kept (k - 1); pure (some (OutSpec.copy n))
